@@ -29,10 +29,16 @@ ASSUMPTIONS = [
 
 @st.composite
 def scenario(draw, tier="quick"):
-    kind = draw(st.sampled_from(["WIN", "WIN", "DEADHEAT", "PLACE", "EACH_WAY", "MATCH_ODDS", "LINE", "LINE"]))
+    kind = draw(st.sampled_from(["WIN", "WIN", "DEADHEAT", "PLACE", "EACH_WAY", "MATCH_ODDS", "LINE", "LINE", "HANDICAP"]))
     nr = draw(st.integers(2, 5))
     spec = world.default_market(0, nr)
-    spec["market_type"] = {"DEADHEAT": "WIN"}.get(kind, kind)
+    spec["market_type"] = {"DEADHEAT": "WIN", "HANDICAP": "ASIAN_HANDICAP"}.get(kind, kind)
+    if kind == "HANDICAP":
+        # the same selection id on several handicap lines that settle differently
+        nr = min(nr, 4)
+        spec["runners"] = [{"id": 1001 + (i % 2), "hc": [-0.5, 0.5, -1.5, 1.5][i], "af": None} for i in range(nr)]
+        spec["bsp_market"] = False
+        spec["number_of_winners"] = 0  # as in the exchange's handicap markets (each line settles on its own, no dead heat)
     if kind == "LINE":
         iv = draw(st.sampled_from([0.5, 1.0]))
         lo = draw(st.sampled_from([0, 0.5, 100]))
@@ -45,7 +51,7 @@ def scenario(draw, tier="quick"):
         spec["each_way_divisor"] = draw(st.sampled_from([2, 3, 4, 5]))
     elif kind == "PLACE":
         spec["number_of_winners"] = min(nr - 1, draw(st.integers(2, 3)))
-    spec["bsp_market"] = spec["bsp_market"] and kind != "MATCH_ODDS" and draw(st.integers(0, 2)) > 0
+    spec["bsp_market"] = spec["bsp_market"] and kind not in ("MATCH_ODDS", "HANDICAP") and draw(st.integers(0, 2)) > 0
     nt = len(world.ladder_prices(spec))
     mids = [draw(st.integers(6, min(nt - 7, 200))) for _ in range(nr)]
     steps = []
@@ -104,6 +110,8 @@ def scenario(draw, tier="quick"):
     nw = spec["number_of_winners"]
     if kind == "DEADHEAT":
         k = min(len(active), draw(st.integers(2, 5)))
+    elif kind == "HANDICAP":
+        k = draw(st.integers(1, max(1, len(active) - 1)))  # each line settles on its own
     elif kind in ("WIN", "EACH_WAY", "MATCH_ODDS", "LINE"):
         k = min(len(active), 1)
     else:
@@ -133,11 +141,11 @@ def check(sc):
 def _evaluate(sc, lb):
     spec = sc["markets"][0]
     final = lb.renderers[0].updates[-1]
-    sel_ids = [r["id"] for r in spec["runners"]]
+    sel_ids = [(r["id"], r.get("hc", 0)) for r in spec["runners"]]
     is_line = spec["ladder"]["type"] == "LINE_RANGE"
     mtype = spec["market_type"]
     winners = sum(1 for s in final.runner_status if s == "WINNER")
-    n_dh = winners if winners > spec["number_of_winners"] else 1
+    n_dh = winners if (winners > spec["number_of_winners"] and spec["market_type"] != "ASIAN_HANDICAP") else 1
     line_result = None
     for r in lb.op_log:  # what the strategy actually told the framework (not merely what was scripted)
         if r.op["op"] == "line_result" and r.result == "set":
@@ -149,7 +157,7 @@ def _evaluate(sc, lb):
     from flumine.order.ordertype import LimitOrder, LimitOnCloseOrder, MarketOnCloseOrder
 
     for order in lb.all_orders():
-        status = final.runner_status[sel_ids.index(order.selection_id)]
+        status = final.runner_status[sel_ids.index((order.selection_id, order.handicap))]
         fills = [(m[1], m[2]) for m in order.simulated.matched]
         sm = order.simulated.size_matched
         side = order.side
